@@ -189,6 +189,16 @@ def cases():
             op(o, "vals", node("Values", expressions=Lst([node("Tuple", expressions=Lst([S("a"), S("b")]))]))))),
         lambda o, i: P("Values", alias=P("TableAlias", columns=LIST(P("Identifier", this="COLUMN1", quoted=is_true), P("Identifier", this="COLUMN2", quoted=is_true)))),
         "Snowflake names the columns of an unnamed VALUES COLUMN1..n (1-based, one per element of a row)")
+    add("SELECT .. FROM t JOIN (VALUES (a, b)) -> columns COLUMN1, COLUMN2 (a joined source too)", "values_columns",
+        mk(lambda o: (lambda vals: (node("Select", "stmt", expressions=Lst([node("Star")]), **{"from": node("From", this=table("T")),
+                                                                                            "joins": Lst([node("Join", this=vals)])}), vals)[1])(
+            op(o, "vals", node("Values", expressions=Lst([node("Tuple", expressions=Lst([S("a"), S("b")]))]))))),
+        lambda o, i: P("Values", alias=P("TableAlias", columns=LIST(P("Identifier", this="COLUMN1", quoted=is_true), P("Identifier", this="COLUMN2", quoted=is_true)))),
+        "every unnamed VALUES used as a table source gets Snowflake's column names, wherever it stands in the FROM clause")
+    add("INSERT INTO t VALUES (..) is left alone", "values_columns",
+        mk(lambda o: (lambda vals: (node("Insert", "stmt", this=table("T"), expression=vals), vals)[1])(
+            node("Values", expressions=Lst([node("Tuple", expressions=Lst([S("a")]))])))),
+        UNCHANGED, "the rows of an INSERT are not a table source: an alias there is a syntax error in DuckDB")
     add("VALUES with its own alias keeps it", "values_columns",
         mk(lambda o: (lambda vals: (node("Select", "stmt", expressions=Lst([node("Star")]), **{"from": node("From", this=vals)}), vals)[1])(
             node("Values", expressions=Lst([node("Tuple", expressions=Lst([S("a")]))]), alias=node("TableAlias", this=NodeV("Identifier", {"this": Const("V"), "quoted": Const(False)}, open=False))))),
